@@ -1,4 +1,5 @@
 #!/bin/sh
+export VERIF_EVIDENCE_DIR=/verif/build/experiment_evidence   # never overwrite evidence/ with runs on a patched tree
 # run every seeded change under /verif/seeded against the check of the property it breaks; writes seeded/RESULTS.md
 cd /verif
 echo "| seeded change | property | exit | decided by | failed obligations |" > seeded/RESULTS.md
